@@ -459,7 +459,7 @@ func C06(r *simkit.Run) {
 			if lines[len(lines)-1] == "" {
 				lines = lines[:len(lines)-1]
 			}
-			switch op := t.Draw("sum-edit", 4); {
+			switch op := t.Draw("sum-edit", 5); {
 			case op == 0 || len(lines) < 2: // replace one character
 				li := t.Draw("sum-line", len(lines))
 				l := []byte(lines[li])
@@ -486,6 +486,14 @@ func C06(r *simkit.Run) {
 				li := 1 + t.Draw("sum-line", len(lines)-1)
 				lines = append(lines[:li+1], lines[li:]...)
 				what = "sum-duplicate-line"
+			case op == 4: // the stored sum of the header line is wiped: the line is blanked or cut down to its prefix
+				if t.Chance("header-keeps-its-prefix", 1, 2) {
+					lines[0] = "h1:\n"
+				} else {
+					lines[0] = "\n"
+				}
+				what = "sum-blank-header"
+				r.Probe("sum-file-header-blanked")
 			default: // swap two entry lines
 				if len(lines) < 3 {
 					continue
